@@ -150,7 +150,7 @@ example :
 /-! ## the per-field rule (partial: fields outside oneofs, keys that do not overlap)
 
   Full statement aimed at (DESIGN 5.4, `C04_refines`): for ALL schemas/bindings/requests the populated
-  leaves of `transcode …` are exactly those of `GB.C04.expect …` (GB/C04/Spec.lean): path variable, else
+  leaves of `transcode …` are exactly those of `GB.C04.expectRules …` (GB/C04/Spec.lean): path variable, else
   body, else unfiltered query parameter, else nothing.  `./check` tests exactly that equation on every
   generated case.  Proved here: the three clauses of the rule as theorems about `transcode`, under the
   side conditions `PathsAvoid` / `QueryAvoids` (every OTHER applied key names a field outside any oneof
@@ -771,6 +771,39 @@ theorem C04_stage_oracle_complete (sch : Schema) (orc : Oracle) (root : MsgDesc)
     | ok l =>
       obtain ⟨_, _, m2, _, _, _, _, _, hm2, _⟩ := stageExpect_ok sch orc root bd dec rq l hr
       rw [he] at hm2; simp at hm2
+
+/-- **`expect` — the executable oracle the driver judges every case by — is the declarative `StageSpec`** on every
+    request inside the hypotheses of `C04_refines`, for every schema, body, path-parameter list and query: there it is
+    defined and equals `stageExpect` … -/
+theorem C04_expect_in_domain (sch : Schema) (orc : Oracle) (root : MsgDesc) (bd : Binding) (dec : Dec) (rq : Request)
+    (srcs : List Src) (hs : srcsOf sch root (allCalls sch root bd rq) = some srcs) (hu : Unrelated srcs) :
+    expect sch orc root bd dec rq = stageExpect sch orc root bd dec rq ∧ ∃ r, expect sch orc root bd dec rq = some r := by
+  have h := expect_eq_stage sch orc root bd dec rq srcs hs hu
+  obtain ⟨r, hr⟩ := stageExpect_defined sch orc root bd dec rq srcs hs hu
+  exact ⟨h, r, by rw [h, hr]⟩
+
+/-- … an accepting verdict `l` of `expect` is a message satisfying `StageSpec` over the body-stage message and the
+    request's sources, `StageSpec` pins its populated leaves down uniquely, and the code's model accepts with exactly
+    these leaves (so "impl leaves = expect leaves" in the driver IS "impl satisfies StageSpec") … -/
+theorem C04_expect_accepts (sch : Schema) (orc : Oracle) (root : MsgDesc) (bd : Binding) (dec : Dec) (rq : Request)
+    (srcs : List Src) (hs : srcsOf sch root (allCalls sch root bd rq) = some srcs) (hu : Unrelated srcs) (l : Msg)
+    (h : expect sch orc root bd dec rq = some (.ok l)) :
+    ∃ m0 m, bodyStage sch root bd dec = .ok m0
+        ∧ StageSpec sch orc m0 srcs l
+        ∧ (∀ m', StageSpec sch orc m0 srcs m' → ∀ q, lget m' q = lget l q)
+        ∧ transcode sch orc root bd dec rq = .ok m ∧ (∀ q, lget m q = lget l q) := by
+  rw [expect_eq_stage sch orc root bd dec rq srcs hs hu] at h
+  obtain ⟨m0, srcs', m, hb, hs', _, hspec, huniq, ht, hl⟩ := stageExpect_ok sch orc root bd dec rq l h
+  rw [hs] at hs'
+  cases hs'
+  exact ⟨m0, m, hb, hspec, huniq, ht, hl⟩
+
+/-- … and a rejecting verdict is the code's rejection with the same error. -/
+theorem C04_expect_rejects (sch : Schema) (orc : Oracle) (root : MsgDesc) (bd : Binding) (dec : Dec) (rq : Request)
+    (srcs : List Src) (hs : srcsOf sch root (allCalls sch root bd rq) = some srcs) (hu : Unrelated srcs) (e : Err)
+    (h : expect sch orc root bd dec rq = some (.error e)) : transcode sch orc root bd dec rq = .error e := by
+  rw [expect_eq_stage sch orc root bd dec rq srcs hs hu] at h
+  exact stageExpect_error sch orc root bd dec rq e h
 
 /-- non-vacuity: body "*" = {a: 1, b: "x"}, path variable a=7: the oracle accepts with a = 7 over the body, b kept -/
 example :
